@@ -96,6 +96,15 @@ def same_outcome(a, b):
 def check_case(case, acc):
     tree = build(case)
     labels = forest.Labels(tree)
+    _once(case, acc, tree, labels)
+    for op in case.get("mutations", []):
+        # searches see the current links and attribute values
+        refs.mutate_tree(tree, op)
+        _once(case, acc, tree, labels)
+        acc.tag("rechecked_after_mutation")
+
+
+def _once(case, acc, tree, labels):
     start = tree[case["start"]]
     stop_ids = {id(tree[i]) for i in case["stop"]}
     hide_ids = {id(tree[i]) for i in case["hide"]}
@@ -206,6 +215,7 @@ def random_cases(draw, max_nodes=20):
         "hide": draw(strategies.subsets_of(size, max_size=size)),
         "maxlevel": draw(st.one_of(st.none(), st.none(), st.integers(0, 5))),
         "by": {"name": draw(st.sampled_from(["name", "kind"])), "value": draw(st.sampled_from(VALUES))},
+        "mutations": draw(st.lists(st.one_of(strategies.tree_mutation_op(), st.tuples(st.just("rename"), st.integers(0, 30), st.sampled_from(VALUES), st.sampled_from(["name", "kind"])).map(list)), max_size=3)),
     }
 
 
